@@ -394,6 +394,7 @@ def gen_cases(rng, tier):
     cases += between_cases(rng, {"quick": 60, "thorough": 600, "search": 200}[tier])
     cases += random_cases(rng, {"quick": 150, "thorough": 1500, "search": 500}[tier])
     cases += same_value_cases(rng, {"quick": 60, "thorough": 600, "search": 300}[tier])
+    cases += B.partial_segment_cases(rng, {"quick": 40, "thorough": 400, "search": 200}[tier])     # incl. duplicated segments (wrong toggle)
     cases += B.callback_cases(rng, {"quick": 30, "thorough": 300, "search": 150}[tier])
     cases += client_cases(rng, tier)
     cases += api_cases(rng, {"quick": 60, "thorough": 600, "search": 200}[tier])
